@@ -993,3 +993,74 @@ Definition model_pyviews (L : Z) (ns : list node) (es : list edge) (o : topts)
   do r0 <- edge_diffs_reverse L (q_I q) (q_O q) false;
   do r1 <- edge_diffs_reverse L (q_I q) (q_O q) true;
   Ok ([obs_diffs r0; obs_diffs r1] ++ vs).
+
+(* ------------------------------------------------------------------------------------ *)
+(* Python TreeSequence.edgesets (trees.py 4774-4806)                                     *)
+(* ------------------------------------------------------------------------------------ *)
+(* [children]: parent -> set of children, here an association list with sorted member lists;
+   [active_edgesets]: a dict in insertion order, here a list of (parent, left). *)
+Definition eset := (Z * Z * Z * list Z)%type.       (* left, right, parent, sorted children *)
+
+Fixpoint kids_get (m : list (Z * list Z)) (p : Z) : list Z :=
+  match m with [] => [] | (a, l) :: r => if a =? p then l else kids_get r p end.
+Fixpoint kids_set (m : list (Z * list Z)) (p : Z) (l : list Z) : list (Z * list Z) :=
+  match m with
+  | [] => [(p, l)]
+  | (a, x) :: r => if a =? p then (a, l) :: r else (a, x) :: kids_set r p l
+  end.
+Fixpoint zinsert (c : Z) (l : list Z) : list Z :=
+  match l with [] => [c] | x :: r => if c <? x then c :: l else if c =? x then l else x :: zinsert c r end.
+Fixpoint zremove (c : Z) (l : list Z) : list Z :=
+  match l with [] => [] | x :: r => if c =? x then r else x :: zremove c r end.
+
+Fixpoint act_pop (a : list (Z * Z)) (p : Z) : option Z * list (Z * Z) :=
+  match a with
+  | [] => (None, [])
+  | (x, l) :: r => if x =? p then (Some l, r) else let (o, r') := act_pop r p in (o, (x, l) :: r')
+  end.
+Definition act_mem (a : list (Z * Z)) (p : Z) : bool := existsb (fun xl => fst xl =? p) a.
+
+(* first loop of one transition: close the edgesets of every affected parent *)
+Fixpoint es_close (kids : list (Z * list Z)) (left : Z) (ps : list Z) (act : list (Z * Z))
+  : list eset * list (Z * Z) :=
+  match ps with
+  | [] => ([], act)
+  | p :: r =>
+      match act_pop act p with
+      | (Some l0, act') => let (out, act'') := es_close kids left r act' in
+                           ((l0, left, p, kids_get kids p) :: out, act'')
+      | (None, _) => es_close kids left r act
+      end
+  end.
+
+Fixpoint es_open (kids : list (Z * list Z)) (left : Z) (ps : list Z) (act : list (Z * Z)) : list (Z * Z) :=
+  match ps with
+  | [] => act
+  | p :: r =>
+      if negb (match kids_get kids p with [] => true | _ => false end) && negb (act_mem act p)
+      then es_open kids left r (act ++ [(p, left)]) else es_open kids left r act
+  end.
+
+Fixpoint es_steps (steps : list step) (kids : list (Z * list Z)) (act : list (Z * Z)) : list eset * list (Z * list Z) * list (Z * Z) :=
+  match steps with
+  | [] => ([], kids, act)
+  | s :: r =>
+      let ps := map (fun ie => eparent (snd ie)) (s_out s ++ s_in s) in
+      let (closed, act1) := es_close kids (s_left s) ps act in
+      let kids1 := fold_left (fun k ie => kids_set k (eparent (snd ie)) (zremove (echild (snd ie)) (kids_get k (eparent (snd ie))))) (s_out s) kids in
+      let kids2 := fold_left (fun k ie => kids_set k (eparent (snd ie)) (zinsert (echild (snd ie)) (kids_get k (eparent (snd ie))))) (s_in s) kids1 in
+      let act2 := es_open kids2 (s_left s) ps act1 in
+      let '(rest, kf, af) := es_steps r kids2 act2 in
+      (closed ++ rest, kf, af)
+  end.
+
+Definition edgesets (L : Z) (Ins Rem : list iedge) : res (list eset) :=
+  do '(steps, _) <- sweep L Ins Rem;
+  let '(out, kids, act) := es_steps steps [] [] in
+  Ok (out ++ map (fun pl => (snd pl, L, fst pl, kids_get kids (fst pl))) act).
+
+Definition obs_edgesets (l : list eset) : list (list Z) :=
+  flat_map (fun e => let '(a, b, p, ch) := e in [[a; b; p]; ch]) l.
+
+Definition model_edgesets (L : Z) (ns : list node) (es : list edge) : res (list (list Z)) :=
+  do q <- load L ns es; do l <- edgesets L (q_I q) (q_O q); Ok (obs_edgesets l).
